@@ -245,6 +245,49 @@ def include_case(rng):
             'tags': ['include'] + sorted(kinds | gen.kinds)}
 
 
+def partial_case(rng):
+    """Function values that outlive the include that created them: an included script runs on a private copy of the options, so a
+    partial (or a plain function value, a partial of a partial, a partial used as a call-back) made INSIDE an included file and
+    called LATER from the including script must still count its statements on the one live counter."""
+    gi = FL(rng, prefix='ti')
+    inc = ['function ff(t, v):', '    ' + gi.mark()]
+    if rng.random() < 0.5:
+        inc.append(f'    w = {gi.wrap("t + v")}')
+    inc += [f'    return {gi.wrap("v == t")}', 'endfunction',
+            f'pp = {gi.wrap("systemPartial(ff, " + str(rng.randint(0, 3)) + ")")}',
+            f'gg = {gi.wrap("ff")}',
+            f'qq = {gi.wrap("systemPartial(pp, " + str(rng.randint(0, 3)) + ")")}']
+    if rng.random() < 0.5:
+        inc.append(f'r0 = {gi.wrap("pp(1)")}')
+    files = {'inc.bare': '\n'.join(inc)}
+    tags = {'partial-after-include'}
+    first = 'inc.bare'
+    if rng.random() < 0.4:
+        tags.add('nested')
+        ga = FL(rng, prefix='ta')
+        mid = []
+        ga.block(mid, '', 1, ['a', 'b'], False, 1)
+        mid.insert(rng.randint(0, len(mid)), "include 'inc.bare'")
+        if rng.random() < 0.5:
+            mid.append(f'r1 = {ga.wrap("qq()")}')
+        files['mid.bare'] = '\n'.join(mid)
+        first = 'mid.bare'
+    gm = FL(rng, prefix='tm')
+    out = []
+    if rng.random() < 0.4:
+        gm.block(out, '', 1, ['a', 'b'], False, 1)
+    out.append(f"include '{first}'")
+    calls = ['pp({n})', 'gg({n}, {m})', 'qq()', 'arrayIndexOf(arrayNew({n}, {m}, 1), pp)',
+             'arrayIndexOf(arrayNew({n}, {m}), systemPartial(gg, {n}))', 'pp(qq())']
+    for _ in range(rng.randint(2, 6)):
+        text = rng.choice(calls).format(n=rng.randint(0, 3), m=rng.randint(0, 3))
+        out.append(f'r = {gm.wrap(text)}')
+        if rng.random() < 0.3:
+            gm.block(out, '', 1, ['a', 'b', 'r'], False, 1)
+    return {'family': 'partial', 'text': '\n'.join(out), 'files': files, 'globals': {'a': 0, 'b': 1}, 'nfun': None,
+            'tags': sorted(tags | gm.kinds)}
+
+
 def gen_case(rng):
     gen = progen.Gen(rng, max_depth=rng.choice([2, 3, 4]))
     prog = gen.program()
@@ -303,11 +346,14 @@ def run_impl(model, case, limit):
         options['fetchFn'] = fetch_fn(case['files'])
     out = {}
     try:
-        out['result'] = progen.value_to_wire(runtime.execute_script(model, options), lib)
+        out['result'] = progen.value_to_wire(c08.guarded(lambda: runtime.execute_script(model, options)), lib)
     except runtime.BareScriptRuntimeError as exc:
         out['error'] = str(exc)
     except parser.BareScriptParserError as exc:
         out['error'] = 'ParserError ' + str(exc).split('\n', 1)[0]
+    except c08.Hang:
+        c08.HANGS[0] += 1
+        out['hostexc'] = f'Hang: still running after {c08.HANG_SECONDS} s of CPU time under maxStatements={limit}'
     except RecursionError:
         out['hostexc'] = 'RecursionError'
     except Exception as exc:  # pylint: disable=broad-except
@@ -427,7 +473,10 @@ def budget_oracles(case, model, unl, unl_snaps, limit, out, snaps):
     m = EXCEEDED.match(out.get('error', ''))
     aborted = m is not None
     if 'hostexc' in out or 'hostexc' in unl:
-        return [('no-host-exception', None, out.get('hostexc') or unl.get('hostexc'))]
+        what = out.get('hostexc') or unl.get('hostexc')
+        if what.startswith('Hang'):
+            return [('run-stops-within-budget', f'at most {limit if "hostexc" in out else CAP} statements start', what)]
+        return [('no-host-exception', None, what)]
     if limit == 0:
         if not nonterm and out != unl:
             bad.append(('unlimited-equals-large-limit', unl, out))
@@ -492,7 +541,12 @@ def check_program(ctx, st, case, rng, driver):
                 wire_files.append([url, progen.canon_script(parser.parse_script(text), counter)])
             except parser.BareScriptParserError:
                 wire_files.append([url, 'broken'])
+    if unl.get('hostexc', '').startswith('Hang'):
+        ctx.witness('run-stops-within-budget', {'case': case, 'limit': CAP}, f'at most {CAP} statements start', unl['hostexc'])
+        return [], [], []
     for limit in limits:
+        if c08.HANGS[0] >= 3:
+            break
         out, snaps = run_impl(model, case, limit)
         outs.append(out)
         tags = ['L=0' if limit == 0 else 'aborted' if EXCEEDED.match(out.get('error', '')) else 'error' if 'error' in out else 'completed']
@@ -529,8 +583,10 @@ def make_cases(rng, n):
         r = ix % 10
         if r < 3:
             cases.append(gen_case(rng))
-        elif r < 7:
+        elif r < 6:
             cases.append(fl_case(rng))
+        elif r < 7:
+            cases.append(partial_case(rng))
         elif r < 9:
             cases.append(include_case(rng))
         else:
@@ -541,8 +597,9 @@ def make_cases(rng, n):
 def stream_budget(ctx, n, driver=True, name='budget'):
     rng = ctx.rng(name)
     st = ctx.stream(name,
-                    'corpus + generated programs: 30% progen.Gen (loops, script-function calls), 40% fully-logged jump-level programs '
-                    '(loops, bounded recursion, arrayIndexOf call-backs with a script predicate / systemPartial, endless loops), 20% nested '
+                    'corpus + generated programs: 30% progen.Gen (loops, script-function calls), 30% fully-logged jump-level programs '
+                    '(loops, bounded recursion, arrayIndexOf call-backs with a script predicate / systemPartial, endless loops), 10% function '
+                    'values/partials created inside an included file and called later from the including script, 20% nested '
                     'includes over a virtual file map (missing / broken / twice / return inside an include), 10% data-function call-backs '
                     '(implementation only); N = statementCount under the cap 3000 (more = non-terminating); limits: L=0, every L in '
                     '1..N+2 for N<=40 (quick 24), else 1,2,3,N-1..N+2 + samples; execute_script vs Lean execute per limit; oracles: '
@@ -556,6 +613,9 @@ def stream_budget(ctx, n, driver=True, name='budget'):
     pending = []
     reqs = []
     for case in cases:
+        if c08.HANGS[0] >= 3:
+            ctx.notes.append('stream stopped: the implementation did not stop under maxStatements in 3 runs')
+            break
         r, outs, limits = check_program(ctx, st, case, rng, driver and ctx.driver is not None)
         pending.append((case, limits, outs, len(r)))
         reqs += r
@@ -594,6 +654,8 @@ def replay(witness):
     limit = inp['limit']
     out, snaps = run_impl(model, case, limit)
     fully = case['family'] in ('fl', 'data')
+    if witness['oracle'] == 'run-stops-within-budget':
+        return out.get('hostexc', '').startswith('Hang') or unl.get('hostexc', '').startswith('Hang')
     bad = [] if limit == CAP else budget_oracles(case, model, unl, unl_snaps, limit, out, snaps if fully else None)
     if limit == CAP and fully and 'error' not in unl:
         bound = sum(1 for kv in unl['globals'] if kv[1] == {'f': 'script'})
